@@ -25,7 +25,7 @@ us = SC.us
 def dag_cases(policies):
     @st.composite
     def s(draw):
-        case = draw(SC.call_cases(policies=policies, max_tasks=5, max_runtime=5, batching=False, allow_cond=False))
+        case = draw(SC.call_cases(policies=policies, max_tasks=5, max_runtime=5, batching=False, allow_cond=False, plan_ahead_children=True))
         pol = case["policy"]
         if "release_taskgraphs" in pol:
             pol["release_taskgraphs"] = draw(st.sampled_from([True, True, False]))
